@@ -4,6 +4,7 @@ Case grammar:  root|both  a b acc  fam np p1..pnp  <fexpr>        (both: Find_Ro
                                                                      the later requests are images of the first under scaling of f / of the unit of x)
 Output per call: result, warning flag, number of evaluations, the abscissae in call order; EXIT when the process is terminated."""
 import math
+from fractions import Fraction
 from vcheck import Case, hx, tokf
 
 PID = "C02"
@@ -24,11 +25,14 @@ LEVEL_TEXT = ("Theorems (Coq, over the reals, for an arbitrary objective functio
               "negative ones included, changes neither the outcome nor one evaluation abscissa; UNIT OF x (C02_x_scale_covariant): f(x/c) on [c a, c b] with accuracy c acc, c > 0, is answered by c times "
               "the answer through c times every abscissa; CLAMP ON EVERY ORDERED INSTANCE (C02_ridder_point_clamped_any_instance, only the order laws, no law of arithmetic, so rounding included): "
               "each pass evaluates exactly two abscissae and the second (Ridder's point after the clamp) lies in [min(x1,x2),max(x1,x2)] of the current state. "
+              "NO ANSWER WITHOUT A RIDDER PASS, ON EVERY INSTANCE (C02_first_pass_always_runs, C02_pass_shape_any_instance; no law of arithmetic, so doubles included): a request with opposite signs at the ends and no NaN "
+              "there is never answered from the ends alone, whatever the accuracy (the width of the bracket and beyond included): the trace begins xl, xr, midpoint, Ridder's point of the original bracket, and when nothing "
+              "else is evaluated the answer is that Ridder point - which over the reals is the root of a linear function (C02_linear_exact, every accuracy). "
               "Not theorems: statements about IEEE rounding (the midpoint of a pass being inside the bracket on doubles is tested, not proved; the cost bound on doubles is tested with 0.9 acc for acc, "
               "for accuracies of at least 40 spacings of doubles; the two scaling relations are tested on doubles with powers of two, where they are exact, on the values actually met; the stopping test is "
               "aimed at from both sides — accuracy on a ladder of ulps and relative distances around the width of a pre-computed intermediate bracket, step-like atan/tanh/erf transitions down to "
               "1e-20 spacings wide placed at the far end of that bracket, all scales; "
-              "on doubles the clamp is active when rounding pushes Ridder's point past a bracket end; function values from 1e-300 to 1e300, brackets wider than the largest double, brackets of up to 630 decades with subnormal to 1e300 roots and accuracies down to 1e-14*|root| (up to ~2100 iterations), end values that overflow to +-inf, brackets a few ulps wide, histories of several requests in one process, midpoints that are exact roots, and the matrix of end-value kinds (NaN beyond a domain limit or exactly at it, at the lower or upper end, against an exact zero of value +0 or -0, tiny / ordinary / infinite values of either sign or NaN; zeros at both ends; NaN abscissae) as single requests and inside histories are generated; sign changes beyond DBL_MAX - |far end|, where the sum x1+x2 of an earlier version of the midpoint overflowed (F44, fixed: the ends are halved first), are generated): covered by running the extracted "
+              "on doubles the clamp is active when rounding pushes Ridder's point past a bracket end; function values from 1e-300 to 1e300, brackets wider than the largest double, brackets of up to 630 decades with subnormal to 1e300 roots and accuracies down to 1e-14*|root| (up to ~2100 iterations), end values that overflow to +-inf, brackets a few ulps wide, histories of several requests in one process, midpoints that are exact roots, and the matrix of end-value kinds (NaN beyond a domain limit or exactly at it, at the lower or upper end, against an exact zero of value +0 or -0, tiny / ordinary / infinite values of either sign or NaN; zeros at both ends; NaN abscissae) as single requests and inside histories are generated; sign changes beyond DBL_MAX - |far end|, where the sum x1+x2 of an earlier version of the midpoint overflowed (F44, fixed: the ends are halved first), are generated; accuracies at the TOP of the range — the width of the bracket, a half / third / quarter of it, each on a ladder of units in the last place (a few above the width as well) and of relative distances 1e-15..1e-1 — for linear functions in four forms (K(x-r), x-r, r-x, mx+q) at all scales of root (0, subnormal .. 1e300), slope and width, the root anywhere in the bracket including next to an end, single / both orders / in histories with the same request at 1e3..1e12 times smaller accuracy, are generated; 'linear functions are solved exactly' is evaluated on the answer of EVERY request whose objective function is of first degree in x (recognised from the expression, exact rational root, rounding allowance from the standard model of the expression's own operations), whatever the number of evaluations): covered by running the extracted "
               "model against the C++ code on every run (result, warning flag, full evaluation trace, bit for bit) and by evaluating every clause on "
               "the implementation's output (S4).")
 LEVEL_NOTE = ("Coq 8.16.1 kernel; standard-library real-number axioms (listed in the evidence); nan_end_exits is axiom-free. Hand-written model tied by "
@@ -95,6 +99,85 @@ def parse_fexpr(t, i):
         f, j = parse_fexpr(t, i + 1); u = _UN[o]; return (lambda x: u(f(x))), j
     raise ValueError("fexpr op " + o)
 def _mul(a, b): return a * b
+
+
+
+# ---------------------------------------------------------------- linear objective functions, recognised from the expression itself
+def affine_tree(t, i):
+    """prefix expression made of x, constants, + - * / and neg -> (tree, next index); ValueError for anything else"""
+    o = t[i]
+    if o == "x": return ("x",), i + 1
+    if o == "c": return ("c", tokf(t[i + 1])), i + 2
+    if len(o) == 1 and o in "+-*/":
+        l, j = affine_tree(t, i + 1); r, k = affine_tree(t, j); return (o, l, r), k
+    if o == "neg":
+        l, j = affine_tree(t, i + 1); return ("neg", l), j
+    raise ValueError(o)
+
+
+def affine_coef(n):
+    """(m, q) with tree = m x + q as exact rationals, or None when the tree is not of first degree in x"""
+    o = n[0]
+    if o == "x": return Fraction(1), Fraction(0)
+    if o == "c":
+        if not math.isfinite(n[1]): return None
+        return Fraction(0), Fraction(n[1])
+    if o == "neg":
+        l = affine_coef(n[1]); return None if l is None else (-l[0], -l[1])
+    l = affine_coef(n[1]); r = affine_coef(n[2])
+    if l is None or r is None: return None
+    if o == "+": return l[0] + r[0], l[1] + r[1]
+    if o == "-": return l[0] - r[0], l[1] - r[1]
+    if o == "*":
+        if l[0] == 0: return l[1] * r[0], l[1] * r[1]
+        if r[0] == 0: return r[1] * l[0], r[1] * l[1]
+        return None
+    if r[0] != 0 or r[1] == 0: return None
+    return l[0] / r[1], l[1] / r[1]
+
+
+def affine_eval(n, x):
+    """(value in double arithmetic, bound on its distance from the exact value) of the tree at x; None when something is not finite.
+    Standard model: each operation has relative error <= 2^-53, products and quotients that underflow an absolute error <= 2^-1075."""
+    o = n[0]
+    if o == "x": return x, 0.0
+    if o == "c": return n[1], 0.0
+    if o == "neg":
+        l = affine_eval(n[1], x); return None if l is None else (-l[0], l[1])
+    l = affine_eval(n[1], x); r = affine_eval(n[2], x)
+    if l is None or r is None: return None
+    (a, ea), (b, eb) = l, r
+    try:
+        if o == "+": v = a + b; e = ea + eb + EPS * abs(v)
+        elif o == "-": v = a - b; e = ea + eb + EPS * abs(v)
+        elif o == "*": v = a * b; e = abs(a) * eb + abs(b) * ea + ea * eb + EPS * abs(v) + 2.0 ** -1074
+        else:
+            if b == 0 or eb != 0: return None
+            v = a / b; e = ea / abs(b) + EPS * abs(v) + 2.0 ** -1074
+    except (OverflowError, ZeroDivisionError): return None
+    if not (math.isfinite(v) and math.isfinite(e)): return None
+    return v, e
+
+
+def linear_spec(fam, params, fx, lo, hi):
+    """for an objective function of first degree in x: (exact root, allowance for rounding of a Ridder point on [lo,hi]); None otherwise.
+    In exact arithmetic Ridder's point of a linear function is x3 - f3/m = the root, and its partial derivatives with respect to the three function
+    values are bounded by 1/|m| each; the abscissa arithmetic (midpoint, difference, product, quotient, sum, about ten operations on numbers
+    of size X = max|end|) adds about 10 eps X.  Factor 2-3 of margin on both parts."""
+    if not (math.isfinite(lo) and math.isfinite(hi)): return None
+    X = max(abs(lo), abs(hi))
+    try: tree, j = affine_tree(fx, 0)
+    except (ValueError, IndexError): return None
+    if j != len(fx): return None
+    mq = affine_coef(tree)
+    if mq is None or mq[0] == 0: return None
+    m, q = mq
+    E = Fraction(0)
+    for u in (lo, hi, 0.5 * lo + 0.5 * hi):
+        ve = affine_eval(tree, u)
+        if ve is None: return None
+        E += Fraction(ve[1])
+    return -q / m, 2 * E / abs(m) + Fraction(20 * EPS * X) + Fraction(5e-324) * 4
 
 
 # ---------------------------------------------------------------- generators
@@ -745,6 +828,112 @@ def gen_metamorphic(rng, n):
     return cs
 
 
+# ---------------------------------------------------------------- sixth pass: the TOP edge of the accuracy range (accuracy = the width of the bracket)
+def top_edge_acc(rng, w, floor_):
+    """accuracies at and just below the upper limit of the quantifier: the width w of the bracket, half / a third / a quarter / three quarters of
+    it, each moved by a ladder of units in the last place (the double w is the width only up to rounding, so a few units above it as well) and by
+    a geometric ladder of relative distances 1e-15 .. 1e-1; never below the lower limit floor_ (then the width itself)"""
+    if not (w < math.inf): return DBL_MAX
+    base = w * rng.choice([1.0, 1.0, 1.0, 1.0, 0.5, 0.5, 0.75, 0.25, 1 / 3, 2 / 3, 0.9, 0.51, 0.49])
+    r = rng.random()
+    if r < 0.35: acc = base
+    elif r < 0.75: acc = ulps(base, rng.choice([1, -1, 1, -1, 2, -2, 3, -4, 8, -16, -100, -1000, -10 ** 6, -10 ** 9]))
+    else: acc = base * (1 - rng.choice([-1, 1, 1, 1]) * 10 ** rng.uniform(-15, -1))
+    if base == w and acc > ulps(w, 8): acc = ulps(w, 8)
+    if not (acc > 0) or acc < floor_: acc = w
+    return acc
+
+
+def place_root(rng, lo, hi):
+    """a point of the open bracket: anywhere, at binary fractions, next to either end (ladder of units in the last place and of relative distances),
+    the midpoint"""
+    w = hi - lo; r = rng.random()
+    if r < 0.4: z = lo + w * rng.uniform(0.01, 0.99)
+    elif r < 0.55: z = lo + w * rng.choice([0.5, 0.25, 0.75, 1 / 3, 2.0 ** -rng.randint(3, 40), 1 - 2.0 ** -rng.randint(3, 40)])
+    elif r < 0.8:
+        e, o = rng.choice([(lo, hi), (hi, lo)]); z = ulps(e, rng.choice([1, 2, 3, 10, 100, 1000, 10 ** 5, 10 ** 8]) * (1 if o > e else -1))
+    else:
+        e, o = rng.choice([(lo, hi), (hi, lo)]); z = e + (o - e) * 10 ** rng.uniform(-15, -1)
+    return z if lo < z < hi else None
+
+
+def gen_top_edge(rng, n):
+    """linear objective functions (the ones for which exactness is demanded at every accuracy) in four forms, K (x - r), x - r, r - x, m x + q,
+    at all scales of the root (0, +-5e-324 .. +-1e300), of the slope (1e-300 .. 1e300) and of the width (a few units in the last place of the
+    root to many decades, one end at 0, ends of opposite sign, huge lopsided), the root anywhere in the bracket including next to an end; the
+    accuracy at the top of the range.  As single requests, in both orders of the ends, and in histories (the request, the same with a
+    thousand to 1e12 times smaller accuracy, the request again; next to unrelated requests).  A few non-linear families at the same accuracies
+    ride along for the other clauses (accuracy, location, order, cost)."""
+    cs = []
+    others = [fam_powlaw, fam_poly, fam_saturating, fam_misc, fam_pwl]
+    for k in range(n):
+        if k % 6 == 5:      # non-linear, top-edge accuracy
+            a, b, root, name, params, fx = rng.choice(others)(rng)
+            if not (a < b) or not all(math.isfinite(v) for v in [a, b] + list(params)): continue
+            acc = top_edge_acc(rng, b - a, 1e-14 * abs(root))
+            if rng.random() < 0.5: a, b = b, a
+            op = rng.choice(["root", "root", "both"])
+            cs.append(Case(line(op, a, b, acc, name, params, fx), (op, name, "top-edge")))
+            continue
+        sg = rng.choice([-1.0, 1.0])
+        r = rng.choice([0.0, sg * rng.uniform(0.1, 10), sg * rng.uniform(0.1, 10), sg * p10(rng.uniform(-6, 6)), sg * p10(rng.uniform(-300, 300)), sg * p10(rng.uniform(-323, -290)),
+                        float(rng.randint(-8, 8)), sg * 2.0 ** rng.randint(-60, 60)])
+        s = abs(r) if r != 0 else p10(rng.choice([0.0, rng.uniform(-6, 6), rng.uniform(-300, 300)]))
+        shape = rng.choice(["around", "around", "around", "ulps", "zero-end", "decades", "opposite"])
+        if shape == "around":
+            wl = s * 10 ** rng.uniform(-12, 3); wr = wl * rng.choice([1.0, 10 ** rng.uniform(-3, 3), 10 ** rng.uniform(-10, 10)]); lo, hi = r - wl, r + wr
+        elif shape == "ulps":
+            lo, hi = ulps(r, -rng.choice([1, 2, 5, 30, 100, 10 ** 4, 10 ** 7, 10 ** 10])), ulps(r, rng.choice([1, 2, 5, 30, 100, 10 ** 4, 10 ** 7, 10 ** 10]))
+        elif shape == "zero-end":
+            if r == 0: continue
+            lo, hi = sorted([0.0, r * rng.choice([1.0 + 10 ** rng.uniform(-12, 0), rng.uniform(1.1, 10), 10 ** rng.uniform(0.1, 12)])])
+        elif shape == "decades":
+            if r == 0: continue
+            lo, hi = sorted([r * 10 ** -rng.uniform(0.1, 30), r * 10 ** rng.uniform(0.1, 30)])
+        else:
+            lo, hi = -s * 10 ** rng.uniform(-3, 8) + min(r, 0.0), s * 10 ** rng.uniform(-3, 8) + max(r, 0.0)
+        if not (math.isfinite(lo) and math.isfinite(hi) and lo < hi): continue
+        if rng.random() < 0.6 or not (lo < r < hi):      # move the root: the bracket stays, the root goes anywhere inside it
+            z = place_root(rng, lo, hi)
+            if z is None: continue
+            r = z
+        w = hi - lo
+        if not (w < math.inf): continue
+        form = rng.choice(["scaled", "scaled", "plain", "flipped", "mxq", "mxq"])
+        if form == "scaled":
+            K = rng.choice([-1, 1]) * rng.choice([rng.uniform(0.1, 10), p10(rng.uniform(-6, 6)), p10(rng.uniform(-300, 300))])
+            if not (abs(K) * max(w, abs(lo), abs(hi)) < 1e300 and abs(K) * w > 1e-290): K = math.copysign(1.0, K)
+            name, params, fx = "top-scaled", [K, r], f"* {C(K)} - x {C(r)}"
+        elif form == "plain": name, params, fx = "top-plain", [r], f"- x {C(r)}"
+        elif form == "flipped": name, params, fx = "top-flipped", [r], f"- {C(r)} x"
+        else:
+            m = rng.choice([-1, 1]) * rng.choice([float(rng.randint(1, 9)), 10 ** rng.uniform(-6, 6), p10(rng.uniform(-150, 150))]); q = -m * r
+            if not (math.isfinite(q) and abs(m) * max(abs(lo), abs(hi)) < 1e300): continue
+            name, params, fx = "linear", [m, q], f"+ * {C(m)} x {C(q)}"
+        f, _ = parse_fexpr(fx.split(), 0)
+        if classify(f, lo, hi)[0] != "opp": continue
+        floor_ = 1e-14 * abs(r) if r != 0 else 1e-14 * w
+        acc = top_edge_acc(rng, w, floor_)
+        a, b = (lo, hi) if rng.random() < 0.5 else (hi, lo)
+        q_ = rng.random()
+        if q_ < 0.6: cs.append(Case(line("root", a, b, acc, name, params, fx), ("root", "linear-any-form", "top-edge", shape)))
+        elif q_ < 0.8: cs.append(Case(line("both", a, b, acc, name, params, fx), ("both", "linear-any-form", "top-edge", shape)))
+        else:
+            X = req_text(a, b, acc, name, params, fx)
+            small = max(floor_, min(acc, acc * 10 ** -rng.uniform(3, 12)), TINY)
+            Y = req_text(b, a, small, name, params, fx)
+            if rng.random() < 0.5: seq = [X, Y, X]
+            else:
+                o = rng.choice(others)(rng)
+                if not (o[0] < o[1]) or not all(math.isfinite(v) for v in [o[0], o[1]] + list(o[4])): continue
+                Z = req_text(o[0], o[1], top_edge_acc(rng, o[1] - o[0], 1e-14 * abs(o[2])), o[3], o[4], o[5])
+                f2, _ = parse_fexpr(o[5].split(), 0)
+                if classify(f2, o[0], o[1])[0] not in ("zero", "opp"): continue
+                seq = rng.choice([[Z, X], [X, Z, X], [Y, Z, X]])
+            cs.append(Case(f"seq {len(seq)} " + " ".join(seq), ("seq", "linear-any-form", "top-edge", shape)))
+    return cs
+
+
 def generate(rng, tier):
     cs = []
     big = tier != "quick"
@@ -836,6 +1025,8 @@ def generate(rng, tier):
     cs += gen_stop_boundary(rng, 12000 if big else 700, 4000 if big else 200)
     # fifth pass: metamorphic pairs (scaling of the objective function, unit of x)
     cs += gen_metamorphic(rng, 4000 if big else 240)
+    # sixth pass: accuracies at the top of the range (the width of the bracket and its neighbourhood), linear functions in every form and scale
+    cs += gen_top_edge(rng, 8000 if big else 500)
     return cs
 
 
@@ -949,12 +1140,15 @@ def check_returned(op, req, calls):
             wd = 0.5 * hi - 0.5 * lo; N = 1
             while not (wd < 0.9 * acc) and N < 2300: wd *= 0.5; N += 1
             if n > 2 + 2 * N: out.append((op + ":evaluation-count" + cls_r, f"{n} evaluations for a bracket of width {hi - lo!r} and accuracy {acc!r}: more than 2 + 2*{N} (every pass must at least halve the bracket)"))
-        if fam == "linear" and len(tr) >= 4:
-            m, q = params; root = -q / m
-            # first Ridder point is the root up to rounding: abscissa arithmetic ~10 eps X, function values eps(|m|X+|q|)/|m|; factor ~3 margin
-            tol = 32 * EPS * (max(abs(lo), abs(hi)) + abs(root)) + 5e-324
-            if abs(tr[3] - root) > tol: out.append((op + ":linear-exact", f"linear function: first Ridder point {tr[3]!r} differs from the root {root!r} by more than rounding ({tol!r})"))
-            if abs(x - root) > tol + (acc if n > 4 else 0): out.append((op + ":linear-exact-result", f"linear function: returned {x!r}, root {root!r}"))
+        lin = linear_spec(fam, params, fx, lo, hi)
+        if lin is not None:
+            root, tol = lin      # exact root (Fraction) and the a-priori rounding allowance for a Ridder point of this function on this bracket
+            # the first Ridder point of a linear function is the root up to rounding
+            if len(tr) >= 4 and abs(Fraction(tr[3]) - root) > tol: out.append((op + ":linear-exact", f"linear function: first Ridder point {tr[3]!r} differs from the root {float(root)!r} by more than rounding ({float(tol)!r})"))
+            # ... and so is the answer, whatever the accuracy (also when it equals the width of the bracket, so that any point of the bracket would satisfy
+            # the accuracy clause) and however few evaluations were made; later Ridder points (n > 4) are only known to lie within acc of it
+            if abs(Fraction(x) - root) > tol + (Fraction(acc) if n > 4 and acc == acc and acc != math.inf else 0):
+                out.append((op + ":linear-exact-result", f"linear function: returned {x!r} after {n} evaluations, root {float(root)!r} (bracket [{lo!r},{hi!r}], accuracy {acc!r}, allowance for rounding {float(tol)!r})"))
     return out
 
 
